@@ -33,7 +33,7 @@ Range(s) == {s[i] : i \in 1..Len(s)}
 AnswerKinds == {"ok", "err", "connerr", "closed"}
 
 VARIABLES conn,      \* c -> [alive, idle, inflight, free, highest, held]
-          hb,        \* c -> state of this round's heartbeat request: none/sent/ok/err/connerr/closed/full/timedout
+          hb,        \* c -> state of this round's heartbeat request: none/sent/ok/err/connerr/closed/full/timedout/late
           hbid,      \* c -> stream id of the heartbeat request (or MaxId+1)
           pc,        \* between / send / wait / fail / ended
           todo, futures, failed,   \* sequences of connection names: loop positions of the three phases
@@ -122,7 +122,7 @@ Answer(c, k) ==
     /\ IF k \in {"ok", "err"}
        THEN conn' = [conn EXCEPT ![c].free = Append(@, hbid[c]), ![c].idle = FALSE]   \* process_msg
        ELSE conn' = [conn EXCEPT ![c].alive = IF k = "connerr" THEN "defunct" ELSE "closed"]
-    /\ hb' = [hb EXCEPT ![c] = IF @ = "sent" THEN k ELSE @]
+    /\ hb' = [hb EXCEPT ![c] = IF @ = "sent" THEN k ELSE "late"]       \* after the timeout: nobody waits any more
     /\ UNCHANGED <<hbid, pc, todo, futures, failed, sentCnt, retCnt, pre, base, round>>
 
 WaitStep ==
@@ -189,7 +189,7 @@ TypeOK ==
           /\ conn[c].alive \in {"ok", "defunct", "closed"} /\ conn[c].idle \in BOOLEAN
           /\ conn[c].inflight \in 0..MaxId /\ conn[c].highest \in 0..MaxId
           /\ Range(conn[c].free) \subseteq 0..MaxId /\ conn[c].held \in BOOLEAN
-          /\ hb[c] \in {"none", "sent", "full", "timedout"} \cup AnswerKinds
+          /\ hb[c] \in {"none", "sent", "full", "timedout", "late"} \cup AnswerKinds
     /\ pc \in {"between", "send", "wait", "fail", "ended"} /\ round \in 0..Rounds
 
 \* never two OPTIONS in one round, never one on a connection that was busy / dead / full at its turn
@@ -229,5 +229,5 @@ Witness_SuccessAtLevel == ~(pc = "ended" /\ \E c \in Conns : hb[c] = "ok" /\ pre
 Witness_Timeout        == ~(pc = "ended" /\ \E c \in Conns : hb[c] = "timedout" /\ retCnt[c] = 1)
 Witness_Full           == ~(pc = "ended" /\ \E c \in Conns : hb[c] = "full" /\ retCnt[c] = 1)
 Witness_SecondRoundOk  == ~(pc = "ended" /\ round = 2 /\ \E c \in Conns : hb[c] = "ok")
-Witness_LateAnswer     == ~(\E c \in Conns : hb[c] = "timedout" /\ ~conn[c].idle /\ Healthy(conn[c]))
+Witness_LateAnswer     == ~(pc = "ended" /\ \E c \in Conns : hb[c] = "late" /\ retCnt[c] = 1)
 =============================================================================
